@@ -92,7 +92,6 @@ package datatypes
 
 //@ func (*BaseDatatype).GetMeta
 //@   mode math
-//@   props C10
 //@   requires its.ctx != nil
 //@   modifies nothing
 
